@@ -28,9 +28,10 @@ const (
 	FaultReadError     // reader fails after k bytes
 	FaultCloseError    // reader's Close fails
 	FaultGarbage       // unparsable bytes swapped in for one load
+	FaultPanic         // the loader panics (in Open, or in Read after k bytes) with an error or a string
 )
 
-var FaultNames = []string{"none", "transient_miss", "open_error", "read_error_after_k_bytes", "close_error", "unparsable_content"}
+var FaultNames = []string{"none", "transient_miss", "open_error", "read_error_after_k_bytes", "close_error", "unparsable_content", "loader_panics"}
 
 type armedFault struct {
 	path  string
@@ -50,6 +51,11 @@ type SimLoader struct {
 	// Garbage is what an unparsable-content fault serves (must be invalid under the Set's delimiters)
 	Garbage string
 	OnCall  func(c Call)
+	// DataEOF: every reader hands out its last bytes together with io.EOF (legal, and what many
+	// network readers do)
+	DataEOF bool
+	// PanicInExists: loader_panics faults fire in Exists already (otherwise in Open / Read)
+	PanicInExists bool
 }
 
 func NewSimLoader(inner jet.Loader) *SimLoader {
@@ -87,6 +93,12 @@ func (l *SimLoader) rec(c Call) {
 }
 
 func (l *SimLoader) Exists(p string) bool {
+	if l.PanicInExists {
+		if f := l.take(p, FaultPanic); f != nil {
+			l.rec(Call{"Exists", p, "panic"})
+			panic(fmt.Errorf("INJ-exists: the loader's Exists panicked"))
+		}
+	}
 	r := l.Inner.Exists(p)
 	if r {
 		if f := l.take(p, FaultTransientMiss); f != nil {
@@ -98,6 +110,19 @@ func (l *SimLoader) Exists(p string) bool {
 }
 
 var ErrInjectedOpen = errors.New("INJ-open: simulated loader failure")
+
+// errInjectedOpenWrapsRuntimeError: a loader that recovered from a bug of its own and reports it as an
+// ordinary error value whose chain contains a runtime.Error
+var errInjectedOpenWrapsRuntimeError = func() (err error) {
+	defer func() {
+		if r, ok := recover().(error); ok {
+			err = fmt.Errorf("INJ-open: the loader recovered from its own bug: %w", r)
+		}
+	}()
+	var m map[string]int
+	m["x"] = 1
+	return nil
+}()
 var ErrInjectedRead = errors.New("INJ-read: simulated read failure")
 var ErrInjectedClose = errors.New("INJ-close: simulated close failure")
 
@@ -106,26 +131,77 @@ type faultReader struct {
 	failAt   int // fail once this many bytes were delivered (-1: never)
 	n        int
 	closeErr bool
+	withData bool // the failing Read also delivers bytes (n > 0 together with the error)
+	once     bool // the error is reported once; the next Read says io.EOF (a reader need not repeat its error)
+	failed   bool
+	panics   int // instead of returning the error, Read panics (1: with the error, 2: with a string)
+}
+
+// dataEOFReader delivers its last bytes together with io.EOF, as a reader may (testing/iotest.DataErrReader).
+type dataEOFReader struct {
+	r    io.ReadCloser
+	buf  []byte
+	done bool
+}
+
+func (d *dataEOFReader) Read(p []byte) (int, error) {
+	if d.buf == nil {
+		b, err := io.ReadAll(d.r)
+		if err != nil {
+			return 0, err
+		}
+		d.buf = b
+		if d.buf == nil {
+			d.buf = []byte{}
+		}
+	}
+	if d.done {
+		return 0, io.EOF
+	}
+	n := copy(p, d.buf)
+	d.buf = d.buf[n:]
+	if len(d.buf) == 0 {
+		d.done = true
+		return n, io.EOF
+	}
+	return n, nil
+}
+
+func (d *dataEOFReader) Close() error { return d.r.Close() }
+
+func (f *faultReader) fail(n int) (int, error) {
+	if f.failed && f.once {
+		return 0, io.EOF
+	}
+	f.failed = true
+	switch f.panics {
+	case 1:
+		panic(ErrInjectedRead)
+	case 2:
+		panic("INJ-read: the loader's reader panicked with a string")
+	}
+	return n, ErrInjectedRead
 }
 
 func (f *faultReader) Read(p []byte) (int, error) {
 	if f.failAt >= 0 {
 		if f.n >= f.failAt {
-			return 0, ErrInjectedRead
+			return f.fail(0)
 		}
 		if len(p) > f.failAt-f.n {
 			p = p[:f.failAt-f.n]
 		}
 		if len(p) == 0 {
-			return 0, ErrInjectedRead
+			return f.fail(0)
 		}
 	}
 	n, err := f.r.Read(p)
 	f.n += n
-	if err == io.EOF && f.failAt >= 0 {
-		// the file is shorter than the planned failure offset (it was edited after the fault was
-		// armed): the read fails at its end instead - an armed read fault always fires
-		err = ErrInjectedRead
+	if f.failAt >= 0 && (err == io.EOF || (f.withData && n > 0 && f.n >= f.failAt)) {
+		// the bytes up to the failure offset and the error in one call; or the file is shorter than the
+		// planned offset (it was edited after the fault was armed) and the read fails at its end
+		// instead - an armed read fault always fires
+		return f.fail(n)
 	}
 	return n, err
 }
@@ -141,7 +217,25 @@ func (f *faultReader) Close() error {
 func (l *SimLoader) Open(p string) (io.ReadCloser, error) {
 	if f := l.take(p, FaultOpenError); f != nil {
 		l.rec(Call{"Open", p, "err"})
+		if f.k%4 == 3 && errInjectedOpenWrapsRuntimeError != nil {
+			return nil, errInjectedOpenWrapsRuntimeError
+		}
 		return nil, ErrInjectedOpen
+	}
+	if f := l.take(p, FaultPanic); f != nil && f.k%3 == 0 {
+		l.rec(Call{"Open", p, "panic"})
+		if f.k%2 == 0 {
+			panic(ErrInjectedOpen)
+		}
+		panic("INJ-open: the loader panicked with a string")
+	} else if f != nil {
+		rc, err := l.Inner.Open(p)
+		if err != nil {
+			l.rec(Call{"Open", p, "err"})
+			return nil, err
+		}
+		l.rec(Call{"Open", p, "ok"})
+		return &faultReader{r: rc, failAt: f.k, panics: 1 + f.k%2}, nil
 	}
 	rc, err := l.Inner.Open(p)
 	if err != nil {
@@ -158,7 +252,10 @@ func (l *SimLoader) Open(p string) (io.ReadCloser, error) {
 		return io.NopCloser(strings.NewReader(g)), nil
 	}
 	if f := l.take(p, FaultReadError); f != nil {
-		return &faultReader{r: rc, failAt: f.k}, nil
+		return &faultReader{r: rc, failAt: f.k, withData: f.k%2 == 1, once: f.k%4 == 1}, nil
+	}
+	if l.DataEOF {
+		return &dataEOFReader{r: rc}, nil
 	}
 	if f := l.take(p, FaultCloseError); f != nil {
 		return &faultReader{r: rc, failAt: -1, closeErr: true}, nil
